@@ -224,6 +224,13 @@ func (l *lexer) run() {
 	for l.state = lexStmt; l.state != nil; {
 		l.state = l.state(l)
 	}
+	close(l.items)
+}
+
+// drain discards the remaining items so that the lexing goroutine runs to its end.
+func (l *lexer) drain() {
+	for range l.items {
+	}
 }
 
 // state functions
